@@ -1,6 +1,7 @@
 package main
 
 import (
+	"github.com/nyaruka/goflow/contactql"
 	"encoding/json"
 	"fmt"
 	"sort"
@@ -324,6 +325,14 @@ func groupInvFailures(sa flows.SessionAssets, env envs.Environment, c *flows.Con
 			want := g.CheckQueryBasedMembership(env, c)
 			if in != want {
 				out = append(out, fmt.Sprintf("query group %q: member=%v, query says %v", g.Name(), in, want))
+			}
+			// the same question asked of the query's text, read now in the environment it is evaluated in: what the group's
+			// stored, shared form of the query remembers from earlier readings or evaluations must make no difference
+			if q, err := contactql.ParseQuery(env, g.Query(), sa.Fields()); err == nil {
+				fresh := c.Status() == flows.ContactStatusActive && contactql.EvaluateQuery(env, q, c)
+				if in != fresh && in == want {
+					out = append(out, fmt.Sprintf("query group %q: member=%v, the query %q read afresh says %v", g.Name(), in, g.Query(), fresh))
+				}
 			}
 			for _, lg := range locationGroups {
 				if string(g.UUID()) != lg.uuid {
